@@ -29,7 +29,7 @@
      instr (opcode aux out_signed out_bits (opnd...))
      opnd  (0 i signed bits) | (1 cw cv signed bits)                         *)
 From Coq Require Import ZArith NArith List Bool.
-From Mpc Require Import Gen.Consts Base.Sx Lang.Mini Lang.Ssa Lang.Lower.
+From Mpc Require Import Gen.Consts Base.Sx Lang.Mini Lang.Ssa Lang.Lower Lang.RunC03cg.
 Import ListNotations.
 
 Fixpoint dec_ty (s : sx) : ty :=
@@ -176,7 +176,9 @@ Definition run_c03 (inp : sx) : sx :=
   let mode := getZ (nthx 0 inp) in
   let payload := nthx 1 inp in
   let vectors := map getLN (getL (nthx 2 inp)) in
-  if Z.eqb mode 1 then
+  if Z.eqb mode 4 then run_c03cg false (dec_sprog payload) vectors
+  else if Z.eqb mode 5 then run_c03cg true (dec_sprog payload) vectors
+  else if Z.eqb mode 1 then
     let p := dec_sprog payload in
     SL (map (fun v => ofLN (eval_ssa p v)) vectors)
   else if Z.eqb mode 3 then
